@@ -173,6 +173,7 @@ type Env struct {
 	CurBegin  *BeginSpec
 	CurTime   time.Time
 	NoSnap    bool // skip snapshots (pure speed runs)
+	NoChain   bool // do not feed validator updates to the Tendermint model (replays that start mid-chain)
 }
 
 func NewEnv(idx *TxIndex) *Env {
@@ -286,6 +287,9 @@ func firstLine(s string) string {
 	return s
 }
 
+// Reopen builds a fresh application instance over the environment's database (what a restarted process does).
+func (e *Env) Reopen() (*App, error) { return e.newApp() }
+
 // InitChain creates the database-backed instance and runs InitChain.
 func (e *Env) InitChain(db dbm.DB, spec *InitSpec) *Call {
 	e.DB, e.Init = db, spec
@@ -307,7 +311,7 @@ func (e *Env) InitChain(db dbm.DB, spec *InitSpec) *Call {
 		},
 	}
 	c.Panic, c.Stack = guarded(func() { c.ResInit = e.A.InitChain(req) })
-	if c.Panic == "" {
+	if c.Panic == "" && !e.NoChain {
 		c.ApplyErr = e.Chain.Init(c.ResInit.Validators)
 	}
 	e.Chain.Times[0] = GenesisTime
@@ -386,7 +390,7 @@ func (e *Env) EndBlock(ext []ExtAction) *Call {
 	c.Pre = e.Last()
 	e.A.Ext.Pending = append(e.A.Ext.Pending, ext...)
 	c.Panic, c.Stack = guarded(func() { c.ResEnd = e.A.EndBlock(abci.RequestEndBlock{Height: e.H + 1}) })
-	if c.Panic == "" {
+	if c.Panic == "" && !e.NoChain {
 		c.ApplyErr = e.Chain.Apply(e.H+1, c.ResEnd.ValidatorUpdates)
 	}
 	e.finish(c)
